@@ -1,3 +1,4 @@
+import os
 import re
 from contextlib import contextmanager
 
@@ -1153,7 +1154,15 @@ class CompilerPassGatherCode(CompilerPass):
                 for line in func.code:
                     self.code.append(line)
 
+        if os.environ.get("PYTRAPIC_VERIF") == "1":
+            from . import _verif
+
+            _verif.h1_pre(self.data, self.code)
         self.used_registers = assign_registers(self.data, self.code)
+        if os.environ.get("PYTRAPIC_VERIF") == "1":
+            from . import _verif
+
+            _verif.h1_post(self.data, self.code, self.used_registers)
         self.get_code()
 
     def remove_labels(
